@@ -881,13 +881,23 @@ pub fn string_char_code_at(
     args: &[JsValue],
 ) -> Result<Guarded, JsError> {
     let s = interp.to_js_string(&this);
-    let index = if let Some(v) = args.first() {
-        interp.coerce_to_number(v)? as usize
+    // ToIntegerOrInfinity: NaN -> 0, otherwise truncate
+    let index = match args.first() {
+        Some(v) => interp.coerce_to_number(v)?,
+        None => 0.0,
+    };
+    let index = if index.is_nan() {
+        0.0
     } else {
-        0
+        math::trunc(index)
     };
 
-    if let Some(ch) = s.as_str().chars().nth(index) {
+    // Negative or out of bounds -> NaN
+    if index < 0.0 {
+        return Ok(Guarded::unguarded(JsValue::Number(f64::NAN)));
+    }
+
+    if let Some(ch) = s.as_str().chars().nth(index as usize) {
         Ok(Guarded::unguarded(JsValue::Number(ch as u32 as f64)))
     } else {
         Ok(Guarded::unguarded(JsValue::Number(f64::NAN)))
@@ -973,10 +983,14 @@ pub fn string_code_point_at(
     args: &[JsValue],
 ) -> Result<Guarded, JsError> {
     let s = interp.to_js_string(&this);
-    let index = args.first().map(|v| v.to_number()).unwrap_or(0.0);
+    // ToIntegerOrInfinity: undefined/NaN -> 0, fractions are truncated
+    let index = args
+        .first()
+        .map(|v| v.to_integer_or_infinity())
+        .unwrap_or(0.0);
 
-    // Check for negative or non-integer index
-    if index < 0.0 || math::fract(index) != 0.0 {
+    // Negative or out of bounds -> undefined
+    if index < 0.0 {
         return Ok(Guarded::unguarded(JsValue::Undefined));
     }
 
